@@ -18,6 +18,12 @@ pub fn gen(r: &mut Rng) -> Value {
         if r.chance(1, 3) {
             lines.push(format!("w{} = set x", i));
         }
+        if r.chance(1, 3) {
+            // a jump to a label of the same file (a file may be pasted more than once: the last copy of the label wins)
+            lines.push(format!("goto :l{}", i));
+            lines.push(format!("skipped{} = set yes", i));
+            lines.push(format!(":l{} reached{} = set yes", i, i));
+        }
         files.insert(p.to_string(), json!(lines));
     }
     // lib/b.ds may include a sibling-relative and a parent-relative file
@@ -31,6 +37,11 @@ pub fn gen(r: &mut Rng) -> Value {
     let mut listed = vec![];
     for _ in 0..n {
         listed.push(format!("./{}", r.pick(&paths)));
+    }
+    if r.chance(1, 4) {
+        // a file one level above the directory of the main script
+        files.insert("../up.ds".to_string(), json!(["vup = set up"]));
+        listed.insert(r.below(listed.len() + 1), "../up.ds".to_string());
     }
     let bad = r.below(6); // 0: missing file, 1: malformed line in an included file
     // the main script may be named like one of the included files (in another directory) and may be opened through a
@@ -49,18 +60,22 @@ fn paste(dir: &PathBuf, rel: &str, files: &serde_json::Map<String, Value>, out: 
         out.push((dir.join(&key).to_string_lossy().to_string(), i + 1, t.to_string()));
         if let Some(rest) = t.trim_start().strip_prefix("!include_files ") {
             for inc in rest.split(' ').filter(|x| !x.is_empty()) {
-                // normalise ./ and ../ against base
-                let mut p = base.clone();
+                // normalise ./ and ../ against base (a `..` that climbs above the work directory is kept)
+                let mut comps: Vec<String> = base.components().map(|c| c.as_os_str().to_string_lossy().to_string()).collect();
                 for comp in inc.split('/') {
                     match comp {
                         "." | "" => {}
                         ".." => {
-                            p.pop();
+                            if comps.last().map(|c| c != "..").unwrap_or(false) {
+                                comps.pop();
+                            } else {
+                                comps.push("..".to_string());
+                            }
                         }
-                        c => p.push(c),
+                        c => comps.push(c.to_string()),
                     }
                 }
-                paste(dir, &p.to_string_lossy(), files, out)?;
+                paste(dir, &comps.join("/"), files, out)?;
             }
         }
     }
@@ -69,8 +84,9 @@ fn paste(dir: &PathBuf, rel: &str, files: &serde_json::Map<String, Value>, out: 
 
 pub fn run(input: &Value) -> Option<Value> {
     let files = input["files"].as_object()?.clone();
-    let dir = std::env::temp_dir().join(format!("verif_c14_{}", std::process::id()));
-    let _ = fs::remove_dir_all(&dir);
+    let top = std::env::temp_dir().join(format!("verif_c14_{}", std::process::id()));
+    let _ = fs::remove_dir_all(&top);
+    let dir = top.join("work");
     fs::create_dir_all(dir.join("lib/deep")).ok()?;
     let mut files = files;
     let includes: Vec<String> = input["main_includes"].as_array()?.iter().map(|v| v.as_str().unwrap().to_string()).collect();
@@ -114,10 +130,26 @@ pub fn run(input: &Value) -> Option<Value> {
         std::env::set_current_dir(&dir).ok()?;
     }
     let res = parser::parse_file(&main_path);
+    let mk = || -> Option<duckscript::types::runtime::Context> {
+        let mut c = duckscript::types::runtime::Context::new();
+        duckscriptsdk::load(&mut c.commands).ok()?;
+        Some(c)
+    };
+    // a misdirected jump may loop: every run is stopped through the halt flag after a while
+    let halt = |ms: u64| {
+        let h = std::sync::Arc::new(std::sync::atomic::AtomicBool::new(false));
+        let h2 = h.clone();
+        std::thread::spawn(move || {
+            std::thread::sleep(std::time::Duration::from_millis(ms));
+            h2.store(true, std::sync::atomic::Ordering::SeqCst);
+        });
+        duckscript::types::env::Env::new(None, None, Some(h))
+    };
+    let file_run = if res.is_ok() { Some(duckscript::runner::run_script_file(&main_path, mk()?, Some(halt(300)))) } else { None };
     if let Some(c) = old_cwd {
         let _ = std::env::set_current_dir(c);
     }
-    let _ = fs::remove_dir_all(&dir);
+    let _ = fs::remove_dir_all(&top);
     let dir_s = dir.to_string_lossy().to_string();
     let same_file = |a: &str, b: &str| -> bool {
         let ab = |x: &str| if x.starts_with('/') { x.to_string() } else { format!("{}/{}", dir_s, x) };
@@ -155,6 +187,16 @@ pub fn run(input: &Value) -> Option<Value> {
         (Err(e), None) => Some(json!({"what": "include failed", "error": e.to_string(), "files": files})),
         (Ok(_), Some(x)) => Some(json!({"what": "error not reported", "expected": [x.0, x.1], "files": files})),
         (Ok(instrs), None) => {
+            // behaviour: running the main file == running the pasted text (same final variables)
+            if let Some(b) = file_run {
+                let pasted: Vec<String> = flat.iter().filter(|(_, _, t)| !t.trim_start().starts_with("!include_files")).map(|(_, _, t)| t.clone()).collect();
+                let a = duckscript::runner::run_script(&pasted.join("\n"), mk()?, Some(halt(300)));
+                let va = a.map(|c| c.variables.into_iter().collect::<std::collections::BTreeMap<String, String>>()).map_err(|e| e.to_string());
+                let vb = b.map(|c| c.variables.into_iter().collect::<std::collections::BTreeMap<String, String>>()).map_err(|e| e.to_string());
+                if va.is_ok() != vb.is_ok() || (va.is_ok() && va != vb) {
+                    return Some(json!({"what": "running the file differs from running the pasted text", "pasted": format!("{:?}", va), "file": format!("{:?}", vb), "files": files}));
+                }
+            }
             if instrs.len() != flat.len() {
                 return Some(json!({"what": "instruction count differs from the pasted script", "expected": flat.len(), "real": instrs.len(), "files": files}));
             }
@@ -164,7 +206,7 @@ pub fn run(input: &Value) -> Option<Value> {
                     return Some(json!({"what": "provenance differs", "index": k, "expected": [f, ln], "real": [ins.meta_info.source, ins.meta_info.line], "files": files}));
                 }
                 let txt_ok = match &ins.instruction_type {
-                    InstructionType::Script(s) => t.starts_with(s.output.as_deref().unwrap_or("")),
+                    InstructionType::Script(s) => t.trim_start().starts_with(s.label.as_deref().or(s.output.as_deref()).or(s.command.as_deref()).unwrap_or("")),
                     InstructionType::PreProcess(_) => t.trim_start().starts_with('!'),
                     InstructionType::Empty => t.trim().is_empty(),
                 };
